@@ -1065,6 +1065,47 @@ def late_binding_in_loops(ctx, R, modules):
                                     "collects all items first) evaluates it with the values of the last iteration", construct=k))
             else:
                 out.append(ctx.ok(R, f, g, f"generator expression over {captured} does not leave the iteration", construct=k, nontrivial=False))
+    # closures created per element of a comprehension: a lambda / nested function in the element that refers to the comprehension variable sees the value the
+    # variable has when it is *called*; a list of such closures, or a generator of them that is drained ahead of their execution (thread pool imap / map, list()),
+    # runs every closure with a later element
+    for f in ctx.prog.funcs.values():
+        if f.module.name not in modules:
+            continue
+        pm = ctx.parents(f)
+        for comp in body_nodes(f):
+            if not isinstance(comp, (ast.GeneratorExp, ast.ListComp, ast.SetComp)):
+                continue
+            tv = {t for c in comp.generators for t in common.target_names(c.target)}
+            lams = [x for x in ast.walk(comp.elt) if isinstance(x, ast.Lambda)]
+            cap = []
+            for lam in lams:
+                bound = {a.arg for a in lam.args.args + lam.args.kwonlyargs}
+                used = {x.id for x in ast.walk(lam.body) if isinstance(x, ast.Name)} - bound
+                if used & tv:
+                    cap.append((lam, sorted(used & tv)))
+            if not cap:
+                continue
+            n_gen += 1
+            k = f"{f.qual}|closure-per-element|{'/'.join(cap[0][1])}"
+            drained = isinstance(comp, (ast.ListComp, ast.SetComp))
+            how = "the list is built completely before any closure runs"
+            if not drained:
+                # where does the generator go?
+                par = pm.get(id(comp))
+                names = set()
+                if isinstance(par, ast.Assign):
+                    names = {t.id for t in par.targets if isinstance(t, ast.Name)}
+                for c in body_nodes(f):
+                    if isinstance(c, ast.Call) and isinstance(c.func, ast.Attribute) and c.func.attr in ("imap", "imap_unordered", "map", "map_async", "starmap", "apply_async", "submit") \
+                            and any((isinstance(a, ast.Name) and a.id in names) or a is comp for a in c.args):
+                        drained, how = True, f"{canon(c.func)}() takes the tasks from the generator ahead of (and in another thread than) their execution"
+                    if isinstance(c, ast.Call) and isinstance(c.func, ast.Name) and c.func.id in ("list", "tuple", "sorted") and any((isinstance(a, ast.Name) and a.id in names) or a is comp for a in c.args):
+                        drained, how = True, f"{c.func.id}() materialises the closures before they run"
+            if drained:
+                out.append(ctx.viol(R, f, cap[0][0], f"`{canon(cap[0][0])[:60]}` is created per element and refers to the comprehension variable {cap[0][1]} when it is called, not when it is "
+                                    f"created; {how}: several closures then run with the same (later) element - some elements are processed twice, others never", construct=k))
+            else:
+                out.append(ctx.ok(R, f, cap[0][0], "closures created per element are run one at a time as the generator is consumed", construct=k, nontrivial=False))
     if not any(r.status != "OK" for r in out):
         out = [ctx.ok(R, None, None, f"{n_gen} generator expression(s) inside loops: none that captures a re-bound loop variable outlives its iteration",
                       construct="|".join(modules) + "|late-binding", nontrivial=False)]
